@@ -21,6 +21,7 @@ RULE = (
     "unconstrained body: exactly 3 (2D) / 6 (3D) zero eigenvalues; spectrum invariant under rigid motion."
 )
 ASSUMPTIONS = [
+    "Multiple eigenvalues: ARPACK may return fewer copies of a multiple eigenvalue than exist (six-fold zero, k = 6); the returned values must then be a sub-multiset of the dense spectrum and every skipped dense eigenvalue a further copy of a returned one; the NUMBER of zero modes is decided on the dense pencil of the felupe-assembled K and M.",
     "K, M re-assembled by the checker from the items' assemble.matrix / assemble.mass (decided by C01 / C14).",
     "The unconstrained body is analysed with a negative shift supplied through the documented solver= argument (the default shift 0 factorises a singular matrix); evaluate(sigma=...) raises TypeError (sigma is passed twice) before any value exists: observation, not judged.",
     "The ARPACK start vector is supplied by the harness (v0=..., passed through evaluate's keyword arguments), otherwise eigsh draws a random one and the run is not reproducible.",
@@ -243,7 +244,23 @@ def run(case):
                 ref = dense[:k]
                 scale = max(abs(dense[min(k + nrig, len(dense) - 1)]), 1e-12)
                 if np.abs(np.sort(lam_) - ref).max() > 1e-7 * scale:
-                    bad(sub + "/spectrum", "returned eigenvalues vs the k smallest eigenvalues of the dense pencil", np.sort(lam_).tolist()[:6], ref.tolist()[:6], 1e-7)
+                    # ARPACK may return fewer copies of a multiple eigenvalue than exist (six-fold zero of an unconstrained
+                    # body with k = 6, found under VERIF_SEED=5): accepted iff the returned values are a sub-multiset of the
+                    # dense spectrum and every skipped dense eigenvalue is a further copy of a returned one; the number of
+                    # zero modes is decided on the dense pencil (above)
+                    pool = list(dense[: min(len(dense), k + nrig + 6)])
+                    okm = True
+                    for v_ in np.sort(lam_):
+                        j_ = [i for i, w_ in enumerate(pool) if abs(w_ - v_) <= 1e-7 * scale]
+                        if not j_:
+                            okm = False
+                            break
+                        pool.pop(j_[0])
+                    skipped = [w_ for w_ in dense[:k] if not any(abs(w_ - v_) <= 1e-7 * scale for v_ in lam_)]
+                    if okm and not skipped:
+                        outcomes.add("arpack-returned-fewer-copies-of-a-multiple-eigenvalue")
+                    else:
+                        bad(sub + "/spectrum", "returned eigenvalues vs the k smallest eigenvalues of the dense pencil", np.sort(lam_).tolist()[:6], ref.tolist()[:6], 1e-7)
                 # extraction
                 for i in range(k):
                     f2, freq = job.extract(n=i, x0=field, inplace=False)
@@ -261,8 +278,10 @@ def run(case):
                     lam7 = np.sort(lam_)[nrig]
                     nzero = int((np.abs(lam_) <= 1e-8 * lam7).sum())
                     outcomes.add(f"zero-modes={nzero}")
-                    if nzero != nrig:
+                    if nzero > nrig or nzero < nrig - 1:
                         bad(sub + "/rigid-modes", "number of zero-frequency modes of an unconstrained body", nzero, nrig)
+                    elif nzero == nrig - 1:
+                        outcomes.add("arpack-returned-fewer-copies-of-a-multiple-eigenvalue")
                 if k == 10 or (k == 6 and 10 >= len(dof1) - 1):
                     spectra[(E, nu, rho, mlab)] = np.sort(lam_)
     # invariance under rigid motion
